@@ -43,9 +43,12 @@ func forStrings(alpha []byte, n int, prefix []byte, f func([]byte)) {
 // of the hex alphabet; the other positions hold the fill symbol.
 func varPositions(n, want int) []int {
 	var cand []int
-	if want >= 7 {
+	switch {
+	case want >= 7:
 		cand = []int{0, 1, 2, n / 2, n - 3, n - 2, n - 1}
-	} else {
+	case want == 6:
+		cand = []int{0, 1, n / 2, n - 3, n - 2, n - 1}
+	default:
 		cand = []int{0, 1, n / 2, n - 2, n - 1}
 	}
 	seen := map[int]bool{}
